@@ -78,6 +78,33 @@ Theorem C15_loader_outside_locks : forall cf s f F b s',
   /\ runs s' (f_key F) = S (runs s (f_key F)).
 Proof. exact loader_outside_locks. Qed.
 
+(* the marker is removed BEFORE the future is completed: a future still registered as the in-flight
+   load of k is Computing, so a caller can only join a load whose completion has not happened *)
+Theorem C15_no_join_after_completion : forall cf t0 progs s k f,
+  reachable cf t0 progs s -> pending s k = Some f ->
+  exists F, futs s f = Some F /\ f_key F = k /\ f_state F = Computing /\ f_ncomplete F = 0%nat
+            /\ premark (f_tpc F) = true.
+Proof. exact no_join_after_completion. Qed.
+
+Theorem C15_stripe_joins_only_uncompleted : forall cf t0 progs s c k r rs b s',
+  reachable cf t0 progs s ->
+  c_pc (callers s c) = CStripe k r rs -> step cf s (Caller c) b = Some s' ->
+  exists f F, c_pc (callers s' c) = CWait k f /\ futs s' f = Some F /\ f_key F = k
+              /\ f_state F = Computing /\ f_ncomplete F = 0%nat.
+Proof. exact stripe_joins_only_uncompleted. Qed.
+
+(* "a later miss after invalidation or expiry triggers exactly one new load": once every load of k
+   has completed, a missing caller creates a new future (never joins an old one) *)
+Theorem C15_miss_after_completion_starts_new_load : forall cf t0 progs s c k r rs b s',
+  reachable cf t0 progs s ->
+  c_pc (callers s c) = CStripe k r rs ->
+  (forall f F, futs s f = Some F -> f_key F = k -> f_state F <> Computing) ->
+  step cf s (Caller c) b = Some s' ->
+  nfut s' = S (nfut s) /\ c_pc (callers s' c) = CWait k (nfut s)
+  /\ exists F, futs s' (nfut s) = Some F /\ f_key F = k /\ f_tpc F = TLoad /\ f_state F = Computing
+               /\ pending s' k = Some (nfut s).
+Proof. exact miss_after_completion_starts_new_load. Qed.
+
 (* (d) the full single-flight statement is FALSE of the faithful model (late arrival, F-22) *)
 Theorem C15_single_flight_refuted_F22 : ~ single_flight_full.
 Proof. exact single_flight_refuted_F22. Qed.
@@ -130,4 +157,10 @@ Example C15_example_F22_two_loads :
                (f22_sched ++ [tk 1; tk 1; tk 1; tk 0; cl 0; cl 1; cl 0; cl 1]) in
   (runs s 7, runs_since s 7, List.map (fun r => (r_caller r, r_via r, r_val r)) (rev (rets s)))
   = (2%nat, 2%nat, [(0%nat, Some 0%nat, 1000); (1%nat, Some 1%nat, 1001)]).
+Proof. vm_compute. reflexivity. Qed.
+
+(* fetch; invalidate; fetch by one caller: the second call starts a second load and returns ITS value *)
+Example C15_example_reload_after_invalidate :
+  let '(s, ok) := seq_run ex_cfg (init 1 (fun _ => [])) [OFetch 2; OInvalidate 2; OFetch 2] in
+  (ok, rev (outs s), runs s 2, nfut s) = (true, [ORet 1000; OInv true; ORet 1001], 2%nat, 2%nat).
 Proof. vm_compute. reflexivity. Qed.
